@@ -147,7 +147,8 @@ func execCStream(f []string) (out string) {
 	}
 	st, serr := cc.Stream(ctx, waitMethod)
 	elapsed := time.Since(start)
-	quarters := int((elapsed + q/2) / q)
+	// load can only delay the return, never hasten it: round with a quarter of slack below and three quarters above
+	quarters := int((elapsed + q/4) / q)
 	sdl := "-"
 	if serr == nil {
 		select {
